@@ -53,7 +53,7 @@ var opNames = []string{
 	"QueryRowsCtx", "QueryRows", "QueryRowsPartialCtx", "QueryRowsPartial",
 	"PrepareCtx+ExecCtx+Close", "Prepare+QueryRowCtx+deferClose", "PrepareCtx+Exec+QueryRowsCtx+noClose",
 	"Prepare+stmtQueries+deferClose", "ConnFromSession+ExecCtx+QueryRowCtx", "ConnFromSession+Transact",
-	"QueryRowCtx-norows", "QueryRowCtx-mismatch",
+	"QueryRowCtx-norows", "QueryRowCtx-mismatch", "ExecCtx-argcount",
 }
 
 type opEnv struct {
@@ -192,9 +192,14 @@ func runOp(kind int, e *opEnv, i int) error {
 	case 16:
 		var v int64
 		return s.QueryRowCtx(ctx, &v, "select v from norows where id = ?", i)
-	default:
+	case 17:
 		var v xrowMismatch
 		return s.QueryRowCtx(ctx, &v, qSel, i)
+	default:
+		// one argument for two placeholders: refused by sqlx before it reaches the driver, with an
+		// error the breaker accepts (the transaction must be rolled back all the same if returned)
+		_, err := s.ExecCtx(ctx, qUpd, i)
+		return err
 	}
 }
 
@@ -496,7 +501,7 @@ func enumCtxPoints() []pcase {
 	return out
 }
 
-func runCtxPoint(c *kit.Case, pc pcase) {
+func runCtxPoint(c *kit.Case, pc pcase) (seen map[string]any) {
 	runtime.LockOSThread()
 	defer runtime.UnlockOSThread()
 	w := newWorld(c.ID)
@@ -559,8 +564,10 @@ func runCtxPoint(c *kit.Case, pc pcase) {
 	})
 	if watchdog {
 		c.Inconclusive("the caller's 25 ms deadline did not fire within 60 s")
-		return
+		return nil
 	}
+	seen = map[string]any{"case": pc, "context_ended_at_the_point": fired, "body_runs": call.BodyRuns, "body_returned": fmt.Sprint(call.BodyRet),
+		"returned": fmt.Sprint(call.Ret), "driver_log": renderLog(w.snapshot())}
 	if ctx.Err() != nil && !fired {
 		// (deadline mode on a stalled machine: the context ended somewhere else; still judged)
 		call.CtxEnded = true
@@ -573,6 +580,7 @@ func runCtxPoint(c *kit.Case, pc pcase) {
 		}
 	}
 	w.followUps(c, class, []sqlx.SqlConn{sc}, false)
+	return seen
 }
 
 // ---------------------------------------------------------------- family: newconn / accept
@@ -951,9 +959,11 @@ func runExtFamilies(t *testing.T) {
 	ps := enumCtxPoints()
 	kit.Run(t, "C14", "ctxpoint", len(ps), func(c *kit.Case) {
 		pc := ps[c.Index]
-		runCtxPoint(c, pc)
+		seen := runCtxPoint(c, pc)
 		c.Sig(true, "ctxpoint", pc)
-		c.Sample("ctxpoint-"+pc.Point, 1, pc)
+		if seen != nil && seen["context_ended_at_the_point"] == true {
+			c.Sample("ctxpoint-"+pc.Mode+"-"+pc.Point, 1, seen)
+		}
 	})
 	qs := enumNewConn()
 	kit.Run(t, "C14", "newconn", len(qs), func(c *kit.Case) {
